@@ -1243,7 +1243,7 @@ class IntermediateColumnarFormatWriter:
                     for field in info_fields:
                         tcw.append(field.full_name, variant.INFO.get(field.name, None))
                     if has_gt:
-                        if variant.genotype is None:
+                        if "GT" not in variant.FORMAT or variant.genotype is None:
                             val = None
                         else:
                             val = variant.genotype.array()
